@@ -39,7 +39,7 @@ def jobs(tier, seed, report):
     els = [1, 2, 6, 8, 12] if tier == 'quick' else list(range(1, 16))
     combos = [(l, e) for l in lims for e in els]
     report.bounds = {'integer_part': f'solver variable, 0 <= Q < 10^{K}', 'remainder': 'solver variable, 0 <= R < d (every fraction with that denominator, reduced or not)', 'denominators': f'{len(ds)} concrete values: {ds[:45]}{"..." if len(ds) > 45 else ""}',
-                     'limit_x_exponent_limit': f'{lims} x {els}; per denominator ' + ('a seeded sample of 5 combinations plus (6,8); the CLI setting (12,12) for d <= 16 and d in {25,100,1000}' if tier == 'quick' else 'a seeded sample of 10 combinations (limit <= 12 for d <= 64, <= 6 above) plus (6,8), and (12,12) for d <= 64 and d in {100,125,1000}'), 'sign': 'both', 'magnitude': f'10^-(digits of d) .. 10^{K}'}
+                     'limit_x_exponent_limit': f'{lims} x {els}; per denominator ' + ('a seeded sample of 5 combinations plus (6,8); the CLI setting (12,12) for d <= 16 and d in {25,100,1000}' if tier == 'quick' else 'a seeded sample of 10 combinations (limit <= 12 for d <= 64, <= 6 above) plus (6,8), and (12,12) for d <= 64 and d in {100,125,1000}'), 'sign': 'both', 'tiny_family': 'Q < 10 with denominators 3*10^7, 8*10^9, 7*10^15 (R symbolic): magnitudes down to 10^-16 (16*10^12 and 16*10^20 left z3 without an answer on branch feasibility and are not included)', 'magnitude': f'10^-(digits of d) .. 10^{K}'}
     report.outside = ['denominators outside the grid (the algorithm is uniform in d, but that is an argument, not a verdict)', f'integer parts of more than {K} digits', 'show_continuation = false']
     report.assumptions = ['BigInt exact (SMT Int); x / d and x - d*(x/d) for a concrete d are introduced as quotient/remainder witnesses x = q*d + r, 0 <= r < d', 'BigInt::to_string / Display = decimal digits', 'fmt::Formatter collects pieces in order', 'iterator adapters take/peekable/count/clone/any, from_fn']
     report.models_used = ['fmt', 'num', 'coll', 'core', 'strings']
@@ -53,12 +53,19 @@ def jobs(tier, seed, report):
             pick = [c for c in cs if (d <= 64 and c[0] <= 12) or c[0] <= 6][:10] + [(6, 8)] + ([(12, 12)] if d <= 64 or d in (100, 125, 1000) else [])
         for (l, e) in dict.fromkeys(pick):
             js.append({'name': f'd{d}-l{l}-e{e}', 'd': d, 'limit': l, 'explimit': e, 'K': K})
+    # tiny magnitudes: |x| < 10, denominators of 8 to 16 digits (0.000000000125 = 1/(8*10^9)): the small-fraction path with many
+    # leading zeros and its scientific form
+    tiny = [8 * 10 ** 9, 3 * 10 ** 7, 7 * 10 ** 15]
+    tc = [(2, 6), (3, 12), (1, 1), (6, 8)]
+    for i, d in enumerate(tiny):
+        for (l, e) in (tc[i % 2::2] if tier == 'quick' else tc):
+            js.append({'name': f'tiny-d{d}-l{l}-e{e}', 'd': d, 'limit': l, 'explimit': e, 'K': 1})
     return js
 
 def run_job(job, res, prefixes, budget, deadline):
     I = harness.interp_for('dev', {'digits_bound': job['K'] + 2, 'range_bound': 64})
     d = job['d']; K = job['K']
-    FMT = rt.find_fn(I, 'fmt', contains='display.rs:136')
+    FMT = rt.find_fn(I, 'fmt', contains="&display::Display<'_>")
     def entry(I):
         Q = z3.Int('Q'); R = z3.Int('R'); neg = z3.Bool('neg')
         I.assume(z3.And(Q >= 0, Q < 10 ** K, R >= 0, R < d))
@@ -202,7 +209,7 @@ def validate(tier, seed, report):
     import replay_client
     rnd = random.Random(4000 + seed)
     I = harness.interp_for('dev', {'digits_bound': 40, 'range_bound': 64})
-    FMT = rt.find_fn(I, 'fmt', contains='display.rs:136')
+    FMT = rt.find_fn(I, 'fmt', contains="&display::Display<'_>")
     cases = []
     for _ in range(120 if tier == 'quick' else 800):
         d = rnd.choice([1, 2, 3, 4, 7, 8, 9, 16, 25, 40, 97, 125, 1000, 1415])
